@@ -7,7 +7,7 @@ C18 — model of `NormalizeDateString` (benchseries.go:190-211):
 
 `parse` follows time.Parse element by element for this one layout (4-digit year, 2-digit month/day,
 1-or-2-digit hour, 2-digit minute/second, optional fraction introduced by '.' or ',' and cut to
-9 digits, `Z` or ±hh:mm with no range check on the offset digits, range checks on month, day
+9 digits, `Z` or ±hh:mm with hh ≤ 24 and mm ≤ 60 (sic: `>` tests in time.Parse), range checks on month, day
 (per month, leap years), hour, minute, second; nothing may follow).  The proleptic Gregorian
 day-count (`daysFromCivil`, `civilFromDays`) stands for the calendar arithmetic of `time.Date`,
 `Time.UTC` and `Time.date`; that arithmetic itself is stdlib and is only *checked against* it by
@@ -59,6 +59,7 @@ def zone (s : Bytes) : Option (Int × Bytes) :=
   | sg :: h1 :: h2 :: c :: m1 :: m2 :: r =>
     if c ≠ 58 then none
     else if !(isDig h1 && isDig h2 && isDig m1 && isDig m2) then none
+    else if dval h1 * 10 + dval h2 > 24 || dval m1 * 10 + dval m2 > 60 then none  -- "hr > 24", "mm > 60"
     else
       let off : Int := (((dval h1 * 10 + dval h2) * 60 + (dval m1 * 10 + dval m2)) * 60 : Nat)
       if sg = 43 then some (off, r) else if sg = 45 then some (-off, r) else none
